@@ -54,8 +54,13 @@ Qed.
 (* ---- every test is recorded as it would be alone: nothing that happened before changes it ---- *)
 Lemma run_real_count c1 c2 p inject : run_real c1 p inject = run_real c2 p inject.
 Proof. unfold run_real. rewrite <- (real_stream_merge c1), <- (real_stream_merge c2). reflexivity. Qed.
+Lemma run_env_count c1 c2 e p inject : run_env c1 e p inject = run_env c2 e p inject.
+Proof. rewrite (run_env_stream c1), (run_env_stream c2). reflexivity. Qed.
 Lemma run_test_count all_sep c1 c2 t : run_test all_sep c1 t = run_test all_sep c2 t.
-Proof. destruct t as [f|ok ws|p i]; simpl; [destruct all_sep; [apply run_real_count|reflexivity] | reflexivity | apply run_real_count]. Qed.
+Proof.
+  destruct t as [f|ok ws|p i|e p i]; simpl;
+    [destruct all_sep; [apply run_real_count|reflexivity] | reflexivity | apply run_real_count | apply run_env_count].
+Qed.
 
 Lemma run_case_count all_sep run_ign c1 c2 tc : run_case all_sep run_ign c1 tc = run_case all_sep run_ign c2 tc.
 Proof. unfold run_case. destruct (c_ign tc), run_ign; try reflexivity; apply run_test_count. Qed.
